@@ -292,7 +292,20 @@ static bool node_accepts_mac(World &w, int node, const uint8_t mac[6]) {
     return false;
 }
 
+static void enqueue_unfiltered(World &w, int fdnum, const Frame &f);
+extern "C" uint32_t run_bpf(const std::vector<struct sock_filter> &prog, const uint8_t *d, size_t n);
 static void enqueue(World &w, int fdnum, const Frame &f) {
+    FdEnt *e = w.fd(fdnum);
+    if (!e) return;
+    if (!e->bpf.empty()) {
+        // (a packet socket of type SOCK_DGRAM and a UDP socket hand the filter the datagram without link-level / IP headers)
+        uint32_t keep = run_bpf(e->bpf, f.data.data(), f.data.size());
+        if (keep == 0) { w.count("ev.dropped_by_socket_filter"); w.log("bpf-drop", fdnum, f.id); return; }
+        if (keep < f.data.size()) { Frame g = f; g.data.resize(keep); w.count("ev.truncated_by_socket_filter"); enqueue_unfiltered(w, fdnum, g); return; }
+    }
+    enqueue_unfiltered(w, fdnum, f);
+}
+static void enqueue_unfiltered(World &w, int fdnum, const Frame &f) {
     FdEnt *e = w.fd(fdnum);
     if (!e) return;
     if (e->rcvbuf_bytes) {
@@ -501,6 +514,81 @@ static char *net_env_answer(const char *name, uintptr_t pc, char *real) {
 char *__wrap_getenv(const char *n) { return net_env_answer(n, (uintptr_t)__builtin_return_address(0), __real_getenv(n)); }
 char *__wrap_secure_getenv(const char *n) { return net_env_answer(n, (uintptr_t)__builtin_return_address(0), __real_secure_getenv(n)); }
 
+int __real_isatty(int);
+int __wrap_isatty(int fd) {
+    if (!in_sim()) return __real_isatty(fd);
+    if (fd >= 0 && fd <= 2) { g_world->count("ev.isatty"); if (g_world->tty) return 1; errno = ENOTTY; return 0; }
+    errno = ENOTTY;
+    return 0;
+}
+
+// classic BPF, as far as socket filters use it (loads from the packet, scratch memory, ALU, jumps, return)
+uint32_t run_bpf(const std::vector<struct sock_filter> &prog, const uint8_t *d, size_t n) {
+    uint32_t A = 0, X = 0, M[16] = {0};
+    for (size_t pc = 0, steps = 0; pc < prog.size() && steps < 4096; pc++, steps++) {
+        const struct sock_filter &f = prog[pc];
+        uint32_t k = f.k;
+        auto ld = [&](size_t off, int sz, bool &ok) -> uint32_t {
+            if (off + (size_t)sz > n) { ok = false; return 0; }
+            uint32_t v = 0;
+            for (int i = 0; i < sz; i++) v = (v << 8) | d[off + i];
+            return v;
+        };
+        bool ok = true;
+        switch (BPF_CLASS(f.code)) {
+        case BPF_LD: {
+            int sz = BPF_SIZE(f.code) == BPF_W ? 4 : BPF_SIZE(f.code) == BPF_H ? 2 : 1;
+            switch (BPF_MODE(f.code)) {
+            case BPF_ABS: A = ld(k, sz, ok); break;
+            case BPF_IND: A = ld((size_t)X + k, sz, ok); break;
+            case BPF_IMM: A = k; break;
+            case BPF_LEN: A = (uint32_t)n; break;
+            case BPF_MEM: A = M[k & 15]; break;
+            default: return 0;
+            }
+            if (!ok) return 0;
+            break;
+        }
+        case BPF_LDX:
+            switch (BPF_MODE(f.code)) {
+            case BPF_IMM: X = k; break;
+            case BPF_LEN: X = (uint32_t)n; break;
+            case BPF_MEM: X = M[k & 15]; break;
+            case BPF_MSH: { uint32_t b = ld(k, 1, ok); if (!ok) return 0; X = (b & 0xf) << 2; break; }
+            default: return 0;
+            }
+            break;
+        case BPF_ST: M[k & 15] = A; break;
+        case BPF_STX: M[k & 15] = X; break;
+        case BPF_ALU: {
+            uint32_t s = BPF_SRC(f.code) == BPF_X ? X : k;
+            switch (BPF_OP(f.code)) {
+            case BPF_ADD: A += s; break; case BPF_SUB: A -= s; break; case BPF_MUL: A *= s; break;
+            case BPF_DIV: if (!s) return 0; A /= s; break; case BPF_MOD: if (!s) return 0; A %= s; break;
+            case BPF_AND: A &= s; break; case BPF_OR: A |= s; break; case BPF_XOR: A ^= s; break;
+            case BPF_LSH: A <<= (s & 31); break; case BPF_RSH: A >>= (s & 31); break; case BPF_NEG: A = (uint32_t)-(int32_t)A; break;
+            default: return 0;
+            }
+            break;
+        }
+        case BPF_JMP: {
+            uint32_t s = BPF_SRC(f.code) == BPF_X ? X : k;
+            bool t;
+            switch (BPF_OP(f.code)) {
+            case BPF_JA: pc += k; continue;
+            case BPF_JEQ: t = A == s; break; case BPF_JGT: t = A > s; break; case BPF_JGE: t = A >= s; break; case BPF_JSET: t = (A & s) != 0; break;
+            default: return 0;
+            }
+            pc += t ? f.jt : f.jf;
+            break;
+        }
+        case BPF_RET: return BPF_RVAL(f.code) == BPF_A ? A : k;
+        case BPF_MISC: if (BPF_MISCOP(f.code) == BPF_TAX) X = A; else A = X; break;
+        }
+    }
+    return 0;
+}
+
 int __wrap_socket(int domain, int type, int protocol) {
     if (!in_sim()) return __real_socket(domain, type, protocol);
     World &w = *g_world;
@@ -582,6 +670,20 @@ int __wrap_setsockopt(int fd, int level, int optname, const void *optval, sockle
     if (level == SOL_PACKET && optname == PACKET_ADD_MEMBERSHIP && optlen >= sizeof(struct packet_mreq)) {
         const struct packet_mreq *m = (const struct packet_mreq *)optval;
         e->memberships.push_back(std::vector<uint8_t>(m->mr_address, m->mr_address + 6));
+    } else if (level == SOL_CAN_RAW && (optname == CAN_RAW_FD_FRAMES || optname == CAN_RAW_LOOPBACK || optname == CAN_RAW_RECV_OWN_MSGS) && optlen != sizeof(int)) {
+        // net/can/raw.c: these options take exactly an int
+        w.count("ev.setsockopt_einval"); errno = EINVAL; return -1;
+    } else if (level == SOL_CAN_RAW && optname == CAN_RAW_ERR_FILTER && optlen != sizeof(can_err_mask_t)) {
+        w.count("ev.setsockopt_einval"); errno = EINVAL; return -1;
+    } else if (level == SOL_CAN_RAW && optname == CAN_RAW_FILTER && optlen % sizeof(struct can_filter) != 0) {
+        w.count("ev.setsockopt_einval"); errno = EINVAL; return -1;
+    } else if (level == SOL_SOCKET && optname == SO_ATTACH_FILTER && optlen == sizeof(struct sock_fprog)) {
+        const struct sock_fprog *fp = (const struct sock_fprog *)optval;
+        if (!fp->filter || fp->len == 0 || fp->len > BPF_MAXINSNS) { errno = EINVAL; return -1; }
+        e->bpf.assign(fp->filter, fp->filter + fp->len);
+        w.count("ev.socket_filter_attached");
+    } else if (level == SOL_SOCKET && optname == SO_DETACH_FILTER) {
+        e->bpf.clear();
     } else if (level == SOL_CAN_RAW && optname == CAN_RAW_FD_FRAMES && optlen >= sizeof(int)) {
         e->canfd_enabled = *(const int *)optval != 0;
     } else if (level == SOL_CAN_RAW && optname == CAN_RAW_LOOPBACK && optlen >= sizeof(int)) {
@@ -661,6 +763,17 @@ ssize_t __wrap_sendto(int fd, const void *buf, size_t len, int flags, const stru
     if (!e || (e->kind != FdEnt::PACKET && e->kind != FdEnt::UDP)) { errno = EBADF; return -1; }
     // a non-blocking send may find the transmit queue full (cooperative fault point: only programs that ask for MSG_DONTWAIT see it)
     if ((flags & MSG_DONTWAIT) && w.rng_net.chance(0.1)) { w.count("fault.sendto_eagain"); w.log("sendto-eagain", (uint64_t)fd); errno = EAGAIN; return -1; }
+    // UDP: MSG_MORE corks the socket - the data waits for the send that completes the datagram (a packet socket ignores the flag)
+    std::vector<uint8_t> corked;
+    if (e->kind == FdEnt::UDP && ((flags & MSG_MORE) || !e->cork.empty())) {
+        if (e->cork.size() + len > 65507) { e->cork.clear(); w.count("ev.sendto_emsgsize"); errno = EMSGSIZE; return -1; }
+        e->cork.insert(e->cork.end(), (const uint8_t *)buf, (const uint8_t *)buf + len);
+        if (flags & MSG_MORE) { w.count("ev.sendto_corked"); w.log("sendto-corked", (uint64_t)fd, len); return (ssize_t)len; }
+        corked.swap(e->cork);
+        buf = corked.data();
+    }
+    size_t user_len = len;
+    if (!corked.empty()) len = corked.size();
     // what does not fit: a packet socket takes no more than the interface MTU (1500), a UDP socket no more than an IP datagram can
     // carry, and no more than one unfragmented packet (1500 - 20 - 8) when path-MTU discovery forbids fragmentation
     if ((e->kind == FdEnt::PACKET && len > 1500) || (e->kind == FdEnt::UDP && (len > 65507 || (e->pmtudisc_do && len > 1472)))) {
@@ -684,7 +797,7 @@ ssize_t __wrap_sendto(int fd, const void *buf, size_t len, int flags, const stru
     w.count("ev.sendto");
     if (w.hooks.on_send) w.hooks.on_send(w, f.src_node, f);
     else w.deliver(f, w.rng_net.range(w.lat_lo, w.lat_hi));
-    return (ssize_t)len;
+    return (ssize_t)user_len;
 }
 
 ssize_t __wrap_read(int fd, void *buf, size_t len) {
